@@ -28,3 +28,4 @@ PROP = {'engine': 'stack',
  'technique': 'property-based testing (rapid): differential / metamorphic relation between two whole executions, hook-ordered late notification'}
 PROP['rule'] += ' Round-4 addition: prefix kind initerr.idle (first item only): the first initialisation fails with a reported init error and the environment is reset from outside before any invocation arrived (nothing reserved).'
 PROP['rule'] += " Round-8 addition: late family delay.initcrash - the function timeout expires while the first initialisation is still running, the killed runtime is reported dead 2.3 s late (only that process: proc:runtime-1), and the suffix is a runtime fault of the next generation, which must be answered with its own error."
+PROP['rule'] += " Round-10 addition: prefix kind 'ext.shuterr' - a runtime fault, and the extension answers the SHUTDOWN event of the reset that follows with an exit error report (a fault recorded during the reset belongs to the old environment)."
